@@ -328,6 +328,34 @@ def _loop_appends_rows(t, slot):
     return any(isinstance(x, ast.Name) and x.id in tainted for x in ast.walk(apps[0].args[0]))
 
 
+def rule_row_order(ck):
+    """between the event array and its other forms (frame, dict) and on the way into a catalog object nothing reorders,
+    drops or repeats rows"""
+    P = ck.prog
+    d = P.func(A + 'to_dataframe')
+    g = P.func(A + 'from_dataframe')
+    # row order and row set: between the event array and the frame (and back) nothing may reorder, drop or repeat rows
+    REORDER = {'sort_values', 'sort_index', 'sort', 'sample', 'drop_duplicates', 'dropna', 'groupby', 'reindex', 'nlargest', 'nsmallest',
+               'query', 'head', 'tail', 'drop', 'unique', 'shuffle', 'argsort', 'take', 'truncate', 'resample', 'merge', 'join', 'explode'}
+    KEEP = {'set_index', 'reset_index', 'copy', 'assign', 'rename', 'astype', 'map', 'to_records', 'DataFrame', 'ascontiguousarray',
+            'asarray', 'array'}
+    for fn in (d, g, P.func(A + 'to_dict'), P.func(A + 'from_dict'), P.func(A + 'catalog.setter'), P.func(A + '_get_catalog_as_ndarray'),
+               P.func(A + '__init__'), P.func('csep.core.catalogs.CSEPCatalog.load_catalog'), P.func('csep.load_catalog')):
+        o = ck.ob('C14-D7.roworder', fn, 'no call reorders or drops event rows', fn.node)
+        bad = []
+        for c in all_nodes(fn):
+            if isinstance(c, ast.Call):
+                nm = c.func.attr if isinstance(c.func, ast.Attribute) else (c.func.id if isinstance(c.func, ast.Name) else None)
+                full = callee(P, fn, c) or ''
+                if (nm in REORDER and not (isinstance(c.func, ast.Attribute) and isinstance(c.func.value, ast.Constant))) or full in ('builtins.sorted', 'builtins.reversed', 'builtins.set', 'numpy.sort', 'numpy.unique', 'numpy.argsort',
+                                             'numpy.flip', 'numpy.random.shuffle', 'numpy.random.permutation'):
+                    bad.append(c)
+            if isinstance(c, ast.Subscript) and isinstance(c.slice, ast.Slice) and c.slice.step is not None:
+                bad.append(c)
+        (o.fail('`%s` changes the order or the set of rows: the catalog read back no longer lists the same events in the same order'
+                % u(bad[0])[:90]) if bad else o.ok('only column stores and order-preserving conversions'))
+
+
 def rule_forms(ck):
     P = ck.prog
     ck.clause('D7')
@@ -403,25 +431,7 @@ def rule_forms(ck):
         if "df['catalog_id']" not in ce.replace('"', "'"):
             probs.append('the catalog id is not taken from the catalog_id column')
     (o.fail('from_dataframe does not select exactly the dtype columns as records / loses the catalog id: ' + '; '.join(probs)) if probs else o.ok())
-    # row order and row set: between the event array and the frame (and back) nothing may reorder, drop or repeat rows
-    REORDER = {'sort_values', 'sort_index', 'sort', 'sample', 'drop_duplicates', 'dropna', 'groupby', 'reindex', 'nlargest', 'nsmallest',
-               'query', 'head', 'tail', 'drop', 'unique', 'shuffle', 'argsort', 'take', 'truncate', 'resample', 'merge', 'join', 'explode'}
-    KEEP = {'set_index', 'reset_index', 'copy', 'assign', 'rename', 'astype', 'map', 'to_records', 'DataFrame', 'ascontiguousarray',
-            'asarray', 'array'}
-    for fn in (d, g, P.func(A + 'to_dict'), P.func(A + 'from_dict')):
-        o = ck.ob('C14-D7.roworder', fn, 'no call reorders or drops event rows', fn.node)
-        bad = []
-        for c in all_nodes(fn):
-            if isinstance(c, ast.Call):
-                nm = c.func.attr if isinstance(c.func, ast.Attribute) else (c.func.id if isinstance(c.func, ast.Name) else None)
-                full = callee(P, fn, c) or ''
-                if nm in REORDER or full in ('builtins.sorted', 'builtins.reversed', 'builtins.set', 'numpy.sort', 'numpy.unique', 'numpy.argsort',
-                                             'numpy.flip', 'numpy.random.shuffle', 'numpy.random.permutation'):
-                    bad.append(c)
-            if isinstance(c, ast.Subscript) and isinstance(c.slice, ast.Slice) and c.slice.step is not None:
-                bad.append(c)
-        (o.fail('`%s` changes the order or the set of rows: the catalog read back no longer lists the same events in the same order'
-                % u(bad[0])[:90]) if bad else o.ok('only column stores and order-preserving conversions'))
+    rule_row_order(ck)
     j = P.func(A + 'write_json')
     o = ck.ob('C14-D7.json', j, 'json.dump(self.to_dict())', j.node)
     dumps = calls_in(P, j, 'json.dump')
